@@ -73,7 +73,46 @@ def _stmts(accs, depth, max_stmts, calls=True, pure=True, carried=True, unit_wei
                 kinds += ["if_chain"]
             if calls or pure:
                 kinds += ["rep_unit"]
+            if depth > 1 and carried:
+                kinds += ["tower", "region_value_unit"]
             k = draw(st.sampled_from(kinds))
+            if k == "tower":
+                # a loop nest of depth 2..3 on one accelerator with a unit at the head of every level and (optionally) a unit behind
+                # every inner loop: what is known behind an inner loop depends on what the enclosing levels do
+                a = draw(st.integers(0, len(accs) - 1))
+
+                tpool = [draw(_vref()), draw(_vref()), -1, -1]  # -1 = the innermost induction variable (or latest value) at that point
+
+                def one_unit():
+                    nf = len(accs[a][1])
+                    return ["unit", a, [draw(st.sampled_from(tpool)) for _ in range(nf)], None]
+
+                def level(n):
+                    body = [one_unit()]
+                    if n > 0:
+                        nc = draw(st.sampled_from([0, 0, 1]))
+                        body.append(["for", draw(_loop_hdr()), level(n - 1), [draw(_vref()) for _ in range(nc)], [draw(_vref()) for _ in range(nc)]])
+                        if draw(st.booleans()):
+                            body.append(one_unit())
+                    return body
+
+                out.append(["for", draw(_loop_hdr()), level(draw(st.integers(1, 2))), [], []])
+                continue
+            if k == "region_value_unit":
+                # a setup value computed by (nested) region ops from values defined right before: a pure op, then a loop carrying a
+                # value whose body holds a conditional that picks between that late value / the induction variable and the carried
+                # value, then a unit fed by the loop result
+                out.append(["pure", draw(st.sampled_from(PURE_OPS)), draw(_vref()), draw(_vref())])
+                inner = ["if", ["p", draw(st.integers(0, 3))], [], [], [draw(st.sampled_from([-3, -2, -3])), -1]]
+                body = [inner] if draw(st.booleans()) else [["pure", draw(st.sampled_from(PURE_OPS)), -3, draw(st.sampled_from([-1, -2]))]]
+                if draw(st.integers(0, 2)) == 0:
+                    body = [["for", draw(_loop_hdr()), body, [-1], [-1]]]
+                out.append(["for", draw(_loop_hdr()), body, [draw(_vref())], [-1]])
+                u = draw(_unit(accs))
+                if u[2]:
+                    u[2][draw(st.integers(0, len(u[2]) - 1))] = -1
+                out.append(u)
+                continue
             if k == "rep_unit":
                 # the same configuration written twice with something in between that may or may not keep the registers
                 # (an opaque or annotated call, a unit of any accelerator, a pure op, a loop or conditional around a call, or nothing):
